@@ -727,6 +727,24 @@ fn main() {{
             ),
         ),
         (
+            "downstream Index<&Local> impl on a BTreeMap (Local is not Ord, the impl crosses a Gc)".into(),
+            body(
+                "#[derive(Collect)]\n#[collect(no_drop)]\nstruct M<'gc> { f: RefLock<Option<C<'gc>>> }\n#[derive(Collect)]\n#[collect(no_drop)]\nstruct N<'gc> { inner: Gc<'gc, M<'gc>> }\nstruct Hop;\nimpl<'a, 'gc> std::ops::Index<&'a Hop> for BTreeMap<u8, N<'gc>> { type Output = RefLock<Option<C<'gc>>>; fn index(&self, _: &'a Hop) -> &Self::Output { &self.get(&0u8).unwrap().inner.f } }\n#[derive(Collect)]\n#[collect(no_drop)]\nstruct Root<'gc> { holder: Gc<'gc, BTreeMap<u8, N<'gc>>> }",
+                "Root { holder: Gc::new(mc, BTreeMap::from([(0u8, N { inner: Gc::new(mc, M { f: RefLock::new(None) }) })])) }",
+                "let w = Gc::write(mc, root.holder); *w[&Hop].unlock().borrow_mut() = Some(child);",
+                "root.holder.get(&0u8).unwrap().inner.f.borrow().is_some()",
+            ),
+        ),
+        (
+            "downstream Index<&Local> impl on a HashMap (Local is not Hash, the impl crosses a Gc)".into(),
+            body(
+                "#[derive(Collect)]\n#[collect(no_drop)]\nstruct M<'gc> { f: RefLock<Option<C<'gc>>> }\n#[derive(Collect)]\n#[collect(no_drop)]\nstruct N<'gc> { inner: Gc<'gc, M<'gc>> }\nstruct Hop;\nimpl<'a, 'gc> std::ops::Index<&'a Hop> for HashMap<u8, N<'gc>> { type Output = RefLock<Option<C<'gc>>>; fn index(&self, _: &'a Hop) -> &Self::Output { &self.get(&0u8).unwrap().inner.f } }\n#[derive(Collect)]\n#[collect(no_drop)]\nstruct Root<'gc> { holder: Gc<'gc, HashMap<u8, N<'gc>>> }",
+                "Root { holder: Gc::new(mc, HashMap::from([(0u8, N { inner: Gc::new(mc, M { f: RefLock::new(None) }) })])) }",
+                "let w = Gc::write(mc, root.holder); *w[&Hop].unlock().borrow_mut() = Some(child);",
+                "root.holder.get(&0u8).unwrap().inner.f.borrow().is_some()",
+            ),
+        ),
+        (
             "Lock::take needs no barrier and adopts nothing".into(),
             body(
                 "#[derive(Collect)]\n#[collect(no_drop)]\nstruct Root<'gc> { c: Gc<'gc, Lock<Option<C<'gc>>>> }",
